@@ -273,6 +273,11 @@ def case_pairing_api(p):
         for r in range(1, p["max_ids"] + 1):
             for ids in itertools.combinations(ids_all, r):
                 issue(f"get_characteristics{list(ids)}", pr.get_characteristics(list(ids)), [("GET", read_target(ids), None, None, None)])
+        # ids whose characteristics the listed database knows as write-only (identify, a timed-write target), alone and among readable ones,
+        # and ids the database does not contain at all: the request names exactly what the caller asked for (what the accessory answers is
+        # its business)
+        for ids in ([(1, 3)], [(1, 11)], [(1, 3), (1, 9)], [(1, 9), (1, 11), (1, 10)], [(1, 12), (1, 3), (1, 11)], [(7, 77)], [(1, 9), (7, 77), (1, 3)]):
+            issue(f"get_characteristics:not-readable-or-unknown{ids}", pr.get_characteristics(list(ids)), [("GET", read_target(ids), None, None, None)])
         # what the caller may pass as ids: any iterable (the declared type), also single-pass ones
         KINDS = {
             "tuple": tuple, "generator": lambda x: (i for i in x), "iterator": iter, "dict-keys": lambda x: dict.fromkeys(x).keys(),
